@@ -19,7 +19,7 @@ Names(V) == [i \in 1..Len(V) |-> V[i].n]
 NegS(v) == CASE IsBad(v) -> v
              [] v.k = "sym" -> Sym(TNeg(v.term))
              [] IsNum(v) -> IF v.x THEN Num(v.k, QNeg(v.re), QNeg(v.im)) ELSE Inx(v.k, TNeg(v.term))
-             [] OTHER -> Unspec
+             [] OTHER -> U("BBEval:22")
 
 \* ---- whole arrays in expressions (NumPy semantics of the evaluator): element by element, for arrays of numbers of equal shape.
 \* An array combined with a scalar by + - * / goes through np.sum/np.prod of a ragged list, whose behaviour depends on the NumPy
@@ -28,10 +28,10 @@ NumArr(a) == a.k = "arr" /\ \A r \in 1..Len(a.rows) : \A c \in 1..Len(a.rows[r])
 SameShape(a, b) == Len(a.rows) = Len(b.rows) /\ \A r \in 1..Len(a.rows) : Len(a.rows[r]) = Len(b.rows[r])
 MapArr(a, Op(_, _, _)) ==      \* Op(value, row, column); any element outside the model makes the whole result unspecified
   LET rows == [r \in 1..Len(a.rows) |-> [c \in 1..Len(a.rows[r]) |-> Op(a.rows[r][c], r, c)]]
-  IN IF \E r \in 1..Len(rows) : \E c \in 1..Len(rows[r]) : ~IsNum(rows[r][c]) THEN Unspec
-     ELSE IF Len(rows) = 0 \/ Len(rows[1]) = 0 THEN Unspec
+  IN IF \E r \in 1..Len(rows) : \E c \in 1..Len(rows[r]) : ~IsNum(rows[r][c]) THEN U("BBEval:31")
+     ELSE IF Len(rows) = 0 \/ Len(rows[1]) = 0 THEN U("BBEval:32")
      ELSE Arr(rows[1][1].k, rows)
-Neg(v) == IF v.k = "arr" THEN (IF NumArr(v) THEN MapArr(v, LAMBDA x, r, c : NegS(x)) ELSE Unspec) ELSE NegS(v)
+Neg(v) == IF v.k = "arr" THEN (IF NumArr(v) THEN MapArr(v, LAMBDA x, r, c : NegS(x)) ELSE U("BBEval:34")) ELSE NegS(v)
 
 TooBig(k) == [k |-> "big", kind |-> k]     \* the exact result leaves TLC's integer range: kept as a term instead
 ExactArith(op, a, b) ==
@@ -39,48 +39,62 @@ ExactArith(op, a, b) ==
   CASE op = "+" -> LET c == CAdd(a, b) IN Num(k, c.re, c.im)
     [] op = "-" -> LET c == CSub(a, b) IN Num(k, c.re, c.im)
     [] op = "*" -> LET c == CMul(a, b) IN Num(k, c.re, c.im)
-    [] op = "/" -> IF CIsZero(b) THEN Unspec
+    [] op = "/" -> IF CIsZero(b) THEN U("BBEval:42")
                    ELSE LET c == CMul(a, CInv(b)) IN Num(IF k = "int" THEN "float" ELSE k, c.re, c.im)
     [] op = "**" ->
          IF b.im[1] = 0 /\ QIsInt(b.re) /\ (Abs(b.re[1]) <= 40 \/ b.k = "int")
-         THEN IF Abs(b.re[1]) > 40 THEN Unspec
+         THEN IF Abs(b.re[1]) > 40 THEN U("BBEval:46")
               ELSE IF b.re[1] >= 0
               THEN LET p == CPow(a, b.re[1]) IN IF p.ok THEN Num(k, p.re, p.im) ELSE TooBig(k)
-              ELSE IF k = "int" \/ CIsZero(a) THEN Unspec          \* int ** negative int, 0 ** negative
+              ELSE IF k = "int" \/ CIsZero(a) THEN U("BBEval:49")          \* int ** negative int, 0 ** negative
                    ELSE LET p == CPow(CInv(a), -b.re[1]) IN IF p.ok THEN Num(k, p.re, p.im) ELSE TooBig(k)
          ELSE IF a.im[1] = 0 /\ a.re[1] > 0 /\ b.im[1] = 0
               THEN Inx(IF k = "int" THEN "float" ELSE k, TBin("**", TNum(a), TNum(b)))   \* positive base, real exponent
-              ELSE Unspec
+              ELSE U("BBEval:53")
 
 
+RECURSIVE PosTerm(_)
+PosTerm(t) == CASE t.t = "pi" -> TRUE
+                [] t.t = "num" -> IsExact(t.v) /\ t.v.k # "complex" /\ ~VBig(t.v) /\ QLt(QZero, t.v.re)
+                [] t.t = "bin" -> (CASE t.op \in {"+", "*", "/"} -> PosTerm(t.l) /\ PosTerm(t.r) [] t.op = "**" -> PosTerm(t.l) [] OTHER -> FALSE)
+                [] t.t = "fn" -> (CASE t.f \in {"exp", "cosh"} -> TRUE [] t.f \in {"sqrt", "sinh", "arcsinh", "tanh", "arctan"} -> PosTerm(t.a) [] OTHER -> FALSE)
+                [] OTHER -> FALSE
+\* a power with an inexact operand: defined wherever the base cannot be negative or zero in a way the model cannot see
+InexactPow(a, b, k) ==
+  IF b.x /\ b.k # "complex" /\ ~VBig(b) /\ QIsInt(b.re) /\ b.re[1] >= 0 /\ b.re[1] <= 40
+  THEN Inx(k, TBin("**", TermOf(a), TermOf(b)))                                   \* any base to a small natural power
+  ELSE IF a.k # "complex" /\ b.k # "complex" /\ k # "int" /\ (IF a.x THEN ~VBig(a) /\ QLt(QZero, a.re) ELSE PosTerm(a.term))
+  THEN Inx(k, TBin("**", TermOf(a), TermOf(b)))                                   \* a positive base to a real power (an integer
+                                                                                   \* to an inexact integer power: sign of the exponent unknown)
+  ELSE U("BBEval:InexactPow")
 ArithS(op, a, b) ==
   CASE IsRaise(a) -> a
     [] IsRaise(b) -> b
-    [] a.k = "unspec" \/ b.k = "unspec" -> Unspec
+    [] a.k = "unspec" \/ b.k = "unspec" -> U("BBEval:59")
     [] a.k = "sym" \/ b.k = "sym" ->
-         IF op = "/" /\ IsExact(b) /\ CIsZero(b) THEN Unspec                    \* division by zero: not finite
-         ELSE IF (a.k = "sym" \/ IsNum(a)) /\ (b.k = "sym" \/ IsNum(b)) THEN Sym(TBin(op, TermOf(a), TermOf(b))) ELSE Unspec
+         IF op = "/" /\ IsExact(b) /\ CIsZero(b) THEN U("BBEval:61")                    \* division by zero: not finite
+         ELSE IF (a.k = "sym" \/ IsNum(a)) /\ (b.k = "sym" \/ IsNum(b)) THEN Sym(TBin(op, TermOf(a), TermOf(b))) ELSE U("BBEval:62")
     [] IsNum(a) /\ IsNum(b) ->
          IF a.x /\ b.x
-         THEN IF VBig(a) \/ VBig(b) THEN Unspec
+         THEN IF VBig(a) \/ VBig(b) THEN U("BBEval:65")
               ELSE LET r == ExactArith(op, a, b) IN
                    IF r.k = "big" THEN Inx(r.kind, TBin(op, TNum(a), TNum(b)))
                    ELSE IF IsExact(r) /\ VBig(r) THEN Inx(r.k, TBin(op, TNum(a), TNum(b)))
                    ELSE r
          ELSE LET k == MaxKind(a.k, b.k) IN
-              IF op = "**" THEN Unspec       \* powers of inexact numbers: sign/domain not decidable here
+              IF op = "**" THEN InexactPow(a, b, k)
               ELSE Inx(IF k = "int" /\ op = "/" THEN "float" ELSE k, TBin(op, TermOf(a), TermOf(b)))
-    [] OTHER -> Unspec
+    [] OTHER -> U("BBEval:73")
 
 Arith(op, a, b) ==
   CASE IsRaise(a) -> a
     [] IsRaise(b) -> b
     [] a.k = "arr" /\ b.k = "arr" ->
-         IF ~NumArr(a) \/ ~NumArr(b) \/ ~SameShape(a, b) THEN Unspec
-         ELSE IF op = "/" /\ b.ty = "int" THEN Unspec             \* np.power(integer array, -1) is refused by NumPy
+         IF ~NumArr(a) \/ ~NumArr(b) \/ ~SameShape(a, b) THEN U("BBEval:79")
+         ELSE IF op = "/" /\ b.ty = "int" THEN U("BBEval:80")             \* np.power(integer array, -1) is refused by NumPy
          ELSE MapArr(a, LAMBDA x, r, c : ArithS(op, x, b.rows[r][c]))
-    [] a.k = "arr" -> IF op = "**" /\ NumArr(a) /\ IsNum(b) THEN MapArr(a, LAMBDA x, r, c : ArithS(op, x, b)) ELSE Unspec
-    [] b.k = "arr" -> IF op = "**" /\ NumArr(b) /\ IsNum(a) THEN MapArr(b, LAMBDA x, r, c : ArithS(op, a, x)) ELSE Unspec
+    [] a.k = "arr" -> IF op = "**" /\ NumArr(a) /\ IsNum(b) THEN MapArr(a, LAMBDA x, r, c : ArithS(op, x, b)) ELSE U("BBEval:82")
+    [] b.k = "arr" -> IF op = "**" /\ NumArr(b) /\ IsNum(a) THEN MapArr(b, LAMBDA x, r, c : ArithS(op, a, x)) ELSE U("BBEval:83")
     [] OTHER -> ArithS(op, a, b)
 
 Fns == {"sin", "cos", "tan", "arcsin", "arccos", "arctan", "sinh", "cosh", "tanh",
@@ -100,12 +114,6 @@ InDomain(f, v) ==
 \* (MC_C03) the harness evaluator rejects arguments outside the domain; in a loader run a NaN may reach a type check and raise,
 \* so there (StrictDomains) a function with a restricted domain is applied only to terms that are positive by construction.
 StrictDomains == TRUE
-RECURSIVE PosTerm(_)
-PosTerm(t) == CASE t.t = "pi" -> TRUE
-                [] t.t = "num" -> IsExact(t.v) /\ t.v.k # "complex" /\ ~VBig(t.v) /\ QLt(QZero, t.v.re)
-                [] t.t = "bin" -> (CASE t.op \in {"+", "*", "/"} -> PosTerm(t.l) /\ PosTerm(t.r) [] t.op = "**" -> PosTerm(t.l) [] OTHER -> FALSE)
-                [] t.t = "fn" -> (CASE t.f \in {"exp", "cosh"} -> TRUE [] t.f \in {"sqrt", "sinh", "arcsinh", "tanh", "arctan"} -> PosTerm(t.a) [] OTHER -> FALSE)
-                [] OTHER -> FALSE
 \* an upper bound of |value| of a real term (-1: none known), so that exp/sinh/cosh of it stays finite
 RECURSIVE Bound(_)
 Bound(t) == CASE t.t = "pi" -> 4
@@ -124,10 +132,10 @@ ApplyS(f, v) == CASE IsBad(v) -> v
                  [] InDomain(f, v) -> Inx("float", TFn(f, TNum(v)))
                  [] IsNum(v) /\ ~v.x /\ v.k = "float" ->
                       IF ~StrictDomains \/ f \in TotalFns \/ (f \in {"sqrt", "log"} /\ PosTerm(v.term))
-                         \/ (f \in {"exp", "sinh", "cosh"} /\ Bound(v.term) \in 0..20) THEN Inx("float", TFn(f, v.term)) ELSE Unspec
-                 [] OTHER -> Unspec
+                         \/ (f \in {"exp", "sinh", "cosh"} /\ Bound(v.term) \in 0..20) THEN Inx("float", TFn(f, v.term)) ELSE U("BBEval:127")
+                 [] OTHER -> U("BBEval:128")
 
-Apply(f, v) == IF v.k = "arr" THEN (IF NumArr(v) THEN MapArr(v, LAMBDA x, r, c : ApplyS(f, x)) ELSE Unspec) ELSE ApplyS(f, v)
+Apply(f, v) == IF v.k = "arr" THEN (IF NumArr(v) THEN MapArr(v, LAMBDA x, r, c : ApplyS(f, x)) ELSE U("BBEval:130")) ELSE ApplyS(f, v)
 
 Flatten(rows) == LET RECURSIVE F(_) F(i) == IF i > Len(rows) THEN <<>> ELSE rows[i] \o F(i + 1) IN F(1)
 
@@ -150,15 +158,16 @@ Eval(e, V, PN) ==
                       IF ~Has(V, e.x) THEN Raise("BSE", e.x)
                       ELSE IF IsRaise(i) THEN i
                       ELSE LET a == Get(V, e.x) IN
-                           IF a.k # "arr" \/ ~IsExact(i) \/ i.k # "int" THEN Unspec
+                           IF a.k # "arr" \/ ~IsExact(i) \/ i.k # "int" THEN U("BBEval:153")
                            ELSE LET fl == Flatten(a.rows) IN
-                                IF i.re[1] < 0 \/ i.re[1] >= Len(fl) THEN Unspec
+                                IF i.re[1] < 0 THEN U("BBEval:negative-index")         \* NumPy counts a negative index from the end
+                                ELSE IF i.re[1] >= Len(fl) THEN Raise("other", "index")
                                 ELSE fl[i.re[1] + 1]
     [] e.t = "brk" -> Eval(e.a, V, PN)
     [] e.t = "pos" -> Eval(e.a, V, PN)
     [] e.t = "neg" -> Neg(Eval(e.a, V, PN))
     [] e.t = "bin" -> Arith(e.op, Eval(e.l, V, PN), Eval(e.r, V, PN))
-    [] e.t = "fn"  -> LET v == Eval(e.a, V, PN) IN IF v.k = "sym" THEN Unspec ELSE Apply(e.f, v)
+    [] e.t = "fn"  -> LET v == Eval(e.a, V, PN) IN IF v.k = "sym" THEN U("BBEval:161") ELSE Apply(e.f, v)
 
 \* template parameters appended to the parameter list while evaluating, in evaluation order
 RECURSIVE ParamsIn(_)
